@@ -638,10 +638,16 @@ def unit(root='/repo'):
         ('flags &= !libc::O_APPEND;', 'after', 'proof { assert(flags & 0o1103i32 == ga & 0o1103i32) by (bit_vector) requires flags == ga & !0o2000i32; }'),
     ]
     TO_U32 = ' let ghost gz = flags; proof { assert(gz & 0o1103i32 == 0 ==> (gz as u32) & 0o1103u32 == 0) by (bit_vector); }'
+    # C12: "the overlay layer switches on writeback behaviour only when that feature was actually negotiated" - the switch OverlayFs::init sets (unit ovlinit)
+    # is what counts, not the configuration: without it the layers get the client's flags (plus the overlay's own O_NOFOLLOW)
+    WB_NEG = '''
+        proof {
+            assert(!self.writeback.cfg() ==> flags == (f0 as i32) | 0o400000i32); // [C12.ovl.open.writeback_negotiated]
+        }'''
     HINS = R.resub_hook(r'self\s*\.handles\s*\.lock\(\)\s*\.unwrap\(\)\s*\.insert\(hd, Arc::new\(handle_data\)\)', 'self.handles.insert_handle(hd, Arc::new(handle_data))', 'the handle table: model call (a handle put on record must be honest about its layer, seam S-HANDLES)')
     ORASSIGN = (r'\bopts \|= (OpenOptions::\w+)', r'opts = opts | \1', 'every: `x |= F` -> `x = x | F` on a bitflags value')
     fopen = fsop('open', reqs=['self.never_wh(inode) || true'], hooks=[HINS], resub=[A64, ORASSIGN],
-                 splices=[('^', 'after', BITS)] + OPEN_SPLICES + [('let node = self.lookup_node(ctx, inode, "", Tracked(vxh))?;', 'before', EMPTY + TO_U32)],
+                 splices=[('^', 'after', BITS)] + OPEN_SPLICES + [('let node = self.lookup_node(ctx, inode, "", Tracked(vxh))?;', 'before', EMPTY + TO_U32 + WB_NEG)],
                  ens=['no_upper() && !sp_open_harmless(flags) ==> r is Err // [C10.open.no_upper] without an upper layer an open that could modify fails'])
     fopen.ghost_token = dict(fopen.ghost_token, callees=fopen.ghost_token['callees'] + ['open'])
     items.append(Group('impl OverlayFs {', [fopen]))
